@@ -203,8 +203,45 @@ def rule_e(repo, chk):
     chk.floor('C10.e', n, 5, '(search-location producers)')
 
 
+def _rest_is_tested(repo, f, c):
+    """after `str(module_path).startswith(p)` the remainder is only split into name parts when it starts with a separator, is empty,
+    or p itself ends with one"""
+    splits = [x for x in own_nodes(f) if isinstance(x, ast.Call) and isinstance(x.func, ast.Attribute) and x.func.attr == 'split'
+              and norm(x.func.value) == 'rest']
+    if not splits:
+        return 'no `rest.split(...)` found'
+
+    def accept(e, pol):
+        if isinstance(e, ast.Call) and isinstance(e.func, ast.Attribute) and pol:
+            if e.func.attr == 'startswith' and norm(e.func.value) == 'rest':
+                return True
+            if e.func.attr == 'endswith' and norm(e.func.value) == norm(c.args[0]):
+                return True
+        if isinstance(e, ast.Name) and e.id == 'rest' and not pol:
+            return True             # an empty remainder is never split (the same test guards the split)
+        return False
+    for sp in splits:
+        w = gate(f, sp, accept)
+        if w is not None:
+            return 'the remainder is turned into a dotted name although no separator follows the prefix: %s' % w
+    return None
+
+
+PREFIX_CHECKED = {
+    ('jedi.inference.sys_path', 'transform_path_to_dotted.iter_potential_solutions', 'str(module_path).startswith(p)'):
+        ('a search path entry names a module only if a separator follows it in the module path (or it ends with one)', _rest_is_tested),
+}
+
+
+def rule_f(repo, chk):
+    chk.clause('C10.f', 'the dotted name of a file is derived from a search path entry that is one of its PARENT DIRECTORIES: the string-prefix '
+                        'test in transform_path_to_dotted is completed by a separator test before the remainder is split into names')
+    from ..lib import path_prefix_check
+    path_prefix_check(repo, chk, 'C10.f', ['jedi.inference.sys_path', 'jedi.inference.imports'], checked=PREFIX_CHECKED, floor=1)
+
+
 def describe(chk):
     chk.undecided('agreement with importlib over all directory trees (run-time oracle); the path -> dotted name direction (transform_path_to_dotted)')
 
 
-RULES = [('C10.a', rule_a), ('C10.b', rule_b), ('C10.c', rule_c), ('C10.d', rule_d), ('C10.e', rule_e)]
+RULES = [('C10.a', rule_a), ('C10.b', rule_b), ('C10.c', rule_c), ('C10.d', rule_d), ('C10.e', rule_e), ('C10.f', rule_f)]
